@@ -27,9 +27,12 @@ def runs_for(tier):
     return 1600 if tier == "quick" else 24000
 
 
-def _io_fault(rng, nlines_hint=12):
+def _io_fault(rng, paths, nlines_hint=12):
+    """A read fault on ONE named file, applied to every open of it during the load
+    (addressing by ordinal would presume that history and pristine process open the same
+    files in the same order - a correct stat-validated cache breaks that)."""
     k = rng.choice(IO_KINDS)
-    d = {"kind": "io", "nth": rng.choice([1, 1, 2, 2, 3])}
+    d = {"kind": "io", "path": rng.choice(paths), "every": True}
     if k in ("tear_line", "tear_byte", "flip", "short"):
         d["what"] = {"flip": "flip", "short": "short"}.get(k, "tear")
         d["line"] = rng.randint(0, nlines_hint)
@@ -46,10 +49,9 @@ def gen_plan(rng):
     cfg["env_rate"] = rng.choice([0.0, 0.1, 0.3])
     cfg["api_rate"] = rng.choice([0.0, 0.2, 0.5])
     cfg["nloads"] = rng.choice([2, 2, 3, 3, 4, 5, 6, 8, 12])
-    cfg["hold_exc"] = rng.choice([0.0, 0.0, 0.5, 1.0])        # the caller keeps failed loads' exceptions
-    # how eagerly the cycle collector runs (when it runs decides where, inside a later load,
-    # garbage left by an earlier one is finalised)
-    cfg["gc_threshold"] = rng.choice([None, None, 1500, 700, 400, 300, 200, 150, 100, 60, 40])
+    # the caller keeps failed loads' exceptions in garbage cycles; automatic collection is then
+    # off and the collector runs at one seeded line event of a later load ("gc" fault)
+    cfg["hold_exc"] = rng.choice([0.0, 0.0, 0.5, 1.0])
     cfg["non_ascii"] = rng.random() < 0.25                    # bytes >= 0x80 in included files
     steps = []
     feats = cfg["features"]
@@ -182,10 +184,9 @@ def gen_plan(rng):
                 st["dot"] = True
         # faults
         faulted = False
-        if (delivery != "loads" or use_libs) and rng.random() < cfg["io_rate"]:
-            st["fault"] = _io_fault(rng)
-            if delivery == "loads":
-                st["fault"]["nth"] = rng.choice([1, 1, 2])
+        fpaths = [l["path"] for l in use_libs] + ([st["path"]] * 2 if delivery != "loads" else [])
+        if fpaths and rng.random() < cfg["io_rate"]:
+            st["fault"] = _io_fault(rng, fpaths)
             faulted = True
         elif rng.random() < cfg["intr_rate"]:
             st["fault"] = {"kind": "intr", "exc": rng.choice(["MemoryError", "KeyboardInterrupt"]),
@@ -193,6 +194,8 @@ def gen_plan(rng):
             faulted = True
         if rng.random() < cfg["hold_exc"]:
             st["hold_exc"] = True
+        if cfg["hold_exc"] and prev_bad and "fault" not in st and rng.random() < 0.7:
+            st["fault"] = {"kind": "gc", "frac": rng.random()}
         steps.append(st)
         loads_done.append(st["out"])
         for n in script.get("defs", []):
@@ -227,24 +230,23 @@ def gen_plan(rng):
     steps.append({"op": "loads", "out": "s1", "script": {"head": list(SENTINEL["head"]),
                                                          "items": [list(i) for i in SENTINEL["items"]]},
                   "kind": "sentinel-fixed"})
-    return {"prop": PROP, "steps": steps, "cfg": cfg, "gc_threshold": cfg["gc_threshold"],
-            "gc_in_loads_only": bool(cfg["hold_exc"])}
+    # sentinels of a history with held exceptions: the collector runs inside the first one
+    if cfg["hold_exc"]:
+        steps[-2]["fault"] = {"kind": "gc", "frac": rng.random()}
+    return {"prop": PROP, "steps": steps, "cfg": cfg, "gc_off": bool(cfg["hold_exc"])}
 
 
 def prepare(plan, ctx):
-    """Resolve interruption instants: dry run of the history with counting tracers."""
+    """Resolve interruption / collection instants: dry run of the history with counting tracers."""
     need = [i for i, s in enumerate(plan["steps"])
-            if s.get("fault", {}).get("kind") == "intr" and "at" not in s["fault"]]
+            if s.get("fault", {}).get("kind") in ("intr", "gc") and "at" not in s["fault"]]
     if not need:
         return plan
     import copy
     dry = copy.deepcopy(plan["steps"])
     for i in need:
-        dry[i]["fault"] = {"kind": "count"}
-    # drop later interruptions from the dry run prefix so that counts are for the
-    # fault-free execution of each interrupted load after the same history
-    evs = fork_run(child.run_plan, dry, ctx["root"], ctx["scratch"], observe="none",
-                   gc_threshold=plan.get("gc_threshold"), gc_in_loads_only=plan.get("gc_in_loads_only"))
+        dry[i]["fault"] = {"kind": "count" if plan["steps"][i]["fault"]["kind"] == "intr" else "count_all"}
+    evs = fork_run(child.run_plan, dry, ctx["root"], ctx["scratch"], observe="none", gc_off=plan.get("gc_off"))
     by_i = {e["i"]: e for e in evs}
     for i in need:
         n = by_i.get(i, {}).get("lines") or 1
@@ -266,8 +268,7 @@ def run(plan, ctx):
     def bump(k, n=1):
         stats[k] = stats.get(k, 0) + n
 
-    H = fork_run(child.run_plan, steps, ctx["root"], ctx["scratch"], mode="history",
-                 gc_threshold=plan.get("gc_threshold"), gc_in_loads_only=plan.get("gc_in_loads_only"))
+    H = fork_run(child.run_plan, steps, ctx["root"], ctx["scratch"], mode="history", gc_off=plan.get("gc_off"))
     viol = []
     log = [["H", D.sha(H)]]
     prev_objs = {}
@@ -316,8 +317,8 @@ def run(plan, ctx):
         fk = fault.get("kind")
         if fk:
             bump("fault_configured:" + (fk if fk != "io" else "io:" + fault["what"]))
-            on_include = fk == "io" and (op == "loads" or int(fault.get("nth", 1)) >= 2)
-            if on_include and len(ev.get("opens") or []) + (0 if ev.get("fired") else 1) > 0:
+            on_include = fk == "io" and (op == "loads" or fault.get("path") != st.get("path"))
+            if on_include:
                 bump("fault_configured:io_on_an_included_file")
             if ev.get("fired"):
                 bump("fault_fired:" + (fk if fk != "io" else "io:" + fault["what"]))
@@ -344,6 +345,8 @@ def run(plan, ctx):
         if not ev.get("ok"):
             bump("loads_failed")
             bump("fail:" + ev["res"][1])
+        if fk == "gc" and ev.get("fired"):
+            bump("collector_ran_inside_a_load")
         if fk == "intr":
             bump("interrupted_loads")
             if ev.get("fired"):
@@ -356,7 +359,7 @@ def run(plan, ctx):
             prun = ctx["cold"].run
         bump("pristine_cold" if prun is not fork_run else "pristine_warm")
         P = prun(child.run_plan, steps, ctx["root"], ctx["scratch"], mode="pristine", only=i,
-                 gc_threshold=plan.get("gc_threshold"), gc_in_loads_only=plan.get("gc_in_loads_only"))
+                 gc_off=plan.get("gc_off"))
         pev = P[-1]
         log.append(["P", i, D.sha(pev)])
         bump("compared_loads")
@@ -366,14 +369,17 @@ def run(plan, ctx):
             for sl in st["probe"]:
                 bump("probe_slot:" + sl)
         a, b = _cmp_keys(ev), _cmp_keys(pev)
-        if a != b:
-            inv = "I4" if str(st.get("kind", "")).startswith("sentinel") else ("I2" if fk else "I1")
+        if fk == "io" and bool(ev.get("fired")) != bool(pev.get("fired")):
+            # the fault reached only one of the two processes (e.g. the history process did not
+            # read the file again because a correct, validated cache served it): the two
+            # executions did not meet the same environment, so there is nothing to compare
+            bump("fault_reached_only_one_process")
+        elif a != b:
+            inv = "I4" if str(st.get("kind", "")).startswith("sentinel") else ("I2" if fk == "io" else "I1")
             viol.append({"inv": inv, "step": i,
                          "detail": "history outcome %s != pristine outcome %s" % (_short(ev), _short(pev)),
                          "history": _short(ev, 2000), "pristine": _short(pev, 2000),
                          "carry": carry})
-        if fk == "io" and ev.get("fired") != pev.get("fired"):
-            bump("fault_fired_differs")
         if not ev.get("ok") or (fk and ev.get("fired")):
             had_bad = True
     stats["distinct_carry"] = sorted(set(carry_sets))
